@@ -455,8 +455,12 @@ def interp(spec, freq, linear=False):
             fill_value=0,
             assume_sorted=True,
         )
-        psdfull = ifunc(np.log(freq))
-        pv = (freq >= Freq[0]) & (freq <= Freq[-1])
+        logfreq = np.log(freq)
+        psdfull = ifunc(logfreq)
+        # select in-range points on the same (log) scale that `ifunc`
+        # works on; otherwise a frequency within round-off of an end
+        # point could be left as a log value
+        pv = (logfreq >= np.log(Freq[0])) & (logfreq <= np.log(Freq[-1]))
         psdfull[pv] = np.exp(psdfull[pv])
     return psdfull
 
